@@ -472,6 +472,68 @@ theorem hom_batchInversion (Hh : OpsHom O' O h) (vals : List α') :
     batchInversion O (vals.map h) = (batchInversion O' vals).map (List.map h) :=
   hom_serialBatchInversion Hh vals
 
+
+-- ------------------------------------------------------------------ interpolate
+
+theorem hom_accumulate (Hh : OpsHom O' O h) (num : List α') (ysl : α') (result : List α') :
+    accumulate O (num.map h) (h ysl) (result.map h) = (accumulate O' num ysl result).map (List.map h) := by
+  unfold accumulate
+  rw [zipIdx_map']
+  refine mapM'_map (fun p : α' × Nat => (h p.1, p.2)) h _ _ (fun rj => ?_) _
+  rw [getAt_map]
+  cases getAt num rj.2 with
+  | ok c => simp [Hh.add, Hh.mul]
+  | panic s => rfl
+  | hang => rfl
+
+theorem hom_interpolate (Hh : OpsHom O' O h) (xs ys : List α') (rlz : Bool) :
+    interpolate O (xs.map h) (ys.map h) rlz = (interpolate O' xs ys rlz).map (List.map h) := by
+  unfold interpolate
+  simp only [List.length_map]
+  by_cases hl : xs.length ≠ ys.length
+  · rw [if_pos hl, if_pos hl]; rfl
+  · rw [if_neg hl, if_neg hl]
+    rw [hom_polyFromRoots Hh]
+    refine bind_congr_map (fun roots => ?_)
+    rw [mapM'_map h (List.map h) (fun x => synDivRoots O (roots.map h) [x])
+      (fun x => synDivRoots O' roots [x]) (fun x => hom_synDivRoots Hh roots [x])]
+    refine bind_congr_map (fun nums => ?_)
+    have hden : ((nums.map (List.map h)).zip (xs.map h)).map (fun ex => eval O ex.1 ex.2) =
+        ((nums.zip xs).map fun ex => eval O' ex.1 ex.2).map h := by
+      rw [List.zip_map, List.map_map, List.map_map]
+      apply List.map_congr_left
+      intro ex _
+      simp [hom_eval Hh]
+    rw [hden, hom_batchInversion Hh]
+    refine bind_congr_map (fun dinv => ?_)
+    have hz : List.replicate xs.length O.zero = (List.replicate xs.length O'.zero).map h := by
+      simp [Hh.zero]
+    rw [hz, loopM_map_id (List.map h) _
+      (fun result i => (getAt ys i).bind fun y => (getAt dinv i).bind fun d =>
+        (getAt nums i).bind fun num => accumulate O' num (O'.mul y d) result)
+      (fun result i => by
+        rw [getAt_map]
+        cases getAt ys i with
+        | panic s => rfl
+        | hang => rfl
+        | ok y =>
+          simp only [map_ok, bind_ok]
+          rw [getAt_map]
+          cases getAt dinv i with
+          | panic s => rfl
+          | hang => rfl
+          | ok d =>
+            simp only [map_ok, bind_ok]
+            rw [getAt_map (List.map h)]
+            cases getAt nums i with
+            | panic s => rfl
+            | hang => rfl
+            | ok num =>
+              simp only [map_ok, bind_ok]
+              rw [← Hh.mul, hom_accumulate Hh])]
+    refine bind_congr_map (fun result => ?_)
+    cases rlz <;> simp [hom_removeLeadingZeros Hh]
+
 end
 
 end WinterProofs.C20
